@@ -305,7 +305,17 @@ def gen_selection(rng, names):
         if s in ('', 'all'):
             s = rng.choice(names)
         return {'k': 'str', 'v': s}
-    if r < 0.64:
+    if r < 0.70:
+        # dense subsets: every name with probability 0.5 .. 0.95, in a random spelling and order
+        p = rng.choice([0.5, 0.75, 0.9, 0.95])
+        items = [n for n in names if rng.random() < p]
+        rng.shuffle(items)
+        kind = rng.choice(['str', 'str', 'list', 'tuple', 'array', 'set'])
+        if kind == 'str':
+            s = ','.join(rng.choice(WS) + it + rng.choice(WS) for it in items)
+            return {'k': 'str', 'v': s if s not in ('all',) else ''}
+        return {'k': kind, 'v': sorted(items) if kind == 'set' else items}
+    if r < 0.76:
         return {'k': 'str', 'v': rng.choice([' all', 'all ', 'ALL', 'all,all', 'all,' + names[1], ',', ' ', ',,',
                                              names[4] + ',', ',' + names[5]])}
     kind = rng.choice(['list', 'list', 'tuple', 'array', 'set', 'frozenset'])
@@ -506,8 +516,13 @@ def observe(ds, data=True):
 
 
 def reset_ds(ds):
-    ds.d.select()
-    ds.d.select(flags='all', weights='all')
+    """back to the state after opening; returns the error text if the real code raises"""
+    try:
+        ds.d.select()
+        ds.d.select(flags='all', weights='all')
+    except Exception as e:   # noqa: BLE001
+        return f"select(); select(flags='all', weights='all') raised {type(e).__name__}: {str(e)[:100]}"
+    return None
 
 
 _TABLES = {}
@@ -586,7 +601,9 @@ def run_sel_case(ctx, case, raw_table):
         ctx.advise(f'mirror mask {m} != documented mask {mspec} for {sel} (table {ds.names})')
     chosen = dec_list(rep[1])
     has_unknown = any(c not in ds.names for c in chosen)
-    reset_ds(ds)
+    rerr = reset_ds(ds)
+    if rerr:
+        return rerr, True
     err = []
 
     def doit():
@@ -623,7 +640,9 @@ def run_hist_case(ctx, case, raw_table, data=True):
         kv = dict(item.split('=', 1) for item in s.split(';'))
         states.append((dec_mask(kv['T']), dec_mask(kv['F']), dec_mask(kv['B']), int(kv['m'])))
     ekv = dict(item.split('=', 1) for item in erased.split(';'))
-    reset_ds(ds)
+    rerr = reset_ds(ds)
+    if rerr:
+        return rerr, True
     nontrivial = False
     last = None
     for i, (call, st) in enumerate(zip(calls, states)):
@@ -649,9 +668,15 @@ def run_hist_case(ctx, case, raw_table, data=True):
         if not (np.array_equal(dec_mask(ekv['T']), tm) and np.array_equal(dec_mask(ekv['F']), fm)
                 and np.array_equal(dec_mask(ekv['B']), bm)):
             ctx.advise('model: erased history gives other masks (contradicts c16_independent)')
-        reset_ds(ds)
+        rerr = reset_ds(ds)
+        if rerr:
+            return rerr, True
         for call in erase_fw(calls):
-            ds.d.select(**call_kwargs(ds, call))
+            try:
+                ds.d.select(**call_kwargs(ds, call))
+            except Exception as e:   # noqa: BLE001
+                return (f'history without flags= / weights=: select({sorted(call_kwargs(ds, call))}) raised '
+                        f'{type(e).__name__}: {str(e)[:100]}'), True
         empty = not (tm.any() and fm.any() and bm.any())
         twin = observe(ds, data=data and not empty)
         for k in ('dumps', 'channels', 'corr_products'):
@@ -718,6 +743,7 @@ def fixed_selections(names):
     out = [{'k': 'str', 'v': 'all'}, {'k': 'str', 'v': ''}, {'k': 'list', 'v': []}, {'k': 'tuple', 'v': []}]
     out += [{'k': 'str', 'v': n} for n in names]
     out += [{'k': 'list', 'v': [n]} for n in names[:2]]
+    out += [{'k': 'str', 'v': ','.join(x for x in names if x != n)} for n in names]      # all but one
     out += [{'k': 'str', 'v': ','.join(names)}, {'k': 'str', 'v': f' {names[2]} ,\t{names[3]}'},
             {'k': 'list', 'v': ['all']}, {'k': 'str', 'v': 'bogus'}, {'k': 'tuple', 'v': [names[7], 'bogus', names[7]]}]
     return out
@@ -733,7 +759,7 @@ def make_cases(ctx, specs):
         w = weights.get(name, 0.35)
         fixed = fixed_selections(names)
         if w < 0.5:
-            fixed = fixed[:2] + rng.sample(fixed[2:], 5) + ([{'k': 'str', 'v': 'data_lost'}, {'k': 'str', 'v': 'postproc'}]
+            fixed = fixed[:2] + rng.sample(fixed[2:], 7) + ([{'k': 'str', 'v': 'data_lost'}, {'k': 'str', 'v': 'postproc'}]
                                                             if spec['fmt'] == 'v4' else [])
         for sel in fixed:
             cases.append({'kind': 'sel', 'ds': spec, 'sel': sel})
@@ -848,8 +874,6 @@ def _run(ctx, cases_fn):
 
 def run(ctx):
     def body(build, raw_table):
-        for msg in static_table_check(ctx):
-            ctx.violation({'kind': 'table', 'ds': {'fmt': 'flags.py'}}, msg)
         specs = ds_specs(ctx.rng, ctx.q(0, 3))
         cases, n_hist, hist_specs = make_cases(ctx, specs)
         evaluate(ctx, corpus_cases() + cases, raw_table)
@@ -863,6 +887,8 @@ def run(ctx):
                 more += [{'kind': 'sel', 'ds': spec, 'sel': gen_selection(ctx.rng, names)} for _ in range(60)]
             evaluate(ctx, more, raw_table)
             evaluate(ctx, gen_hist_cases(ctx, specs, 3 * n_hist, hist_specs, raw_table), raw_table)
+        for msg in static_table_check(ctx):
+            ctx.violation({'kind': 'table', 'ds': {'fmt': 'flags.py'}}, msg)
         for ds in _DS_CACHE.values():
             if ds.n_lost:
                 ctx.tag('ds-data-lost')
